@@ -255,26 +255,29 @@ QUICK_QED_SINGLET = {(21, 21), (22, 101), (100, 22), (101, 100)}
 # documented availability (the oracle): None = supported, else keywords one of which the refusal has to name
 # ---------------------------------------------------------------------------
 def expected_refusal_evolution(cfg):
+    """None (supported) or (keywords, scope): scope 'all' = the missing ingredient is needed by every sector, so every label
+    has to refuse; 'any' = the configuration as a whole is refused (the QED non-singlet kernel has a single solution and
+    ignores the method, the singlet and valence sectors of the same run refuse)"""
     o = cfg["order"]
     if o[1] == 0:
         if cfg["pol"] and cfg["tl"]:
-            return ["olarized", "ime-like", "ime_like"]  # doc: no polarized time-like evolution
+            return ["olarized", "ime-like", "ime_like"], "all"  # doc: no polarized time-like evolution
         if cfg["pol"] and o[0] >= 4:
-            return ["olarized"]  # doc/theory/pQCD.rst: polarized splitting kernels up to NNLO
+            return ["olarized"], "all"  # doc/theory/pQCD.rst: polarized splitting kernels up to NNLO
         if cfg["tl"] and o[0] >= 4:
-            return ["ime-like", "ime_like", "imelike", "ime like"]  # doc/theory/TimeLike.rst: time-like anomalous dimensions up to NNLO
+            return ["ime-like", "ime_like", "imelike", "ime like"], "all"  # doc/theory/TimeLike.rst: time-like anomalous dimensions up to NNLO
         return None
     if cfg["method"] != "ITERATE_EXACT":
-        return ["iterate-exact", "QED"]  # singlet_qed / valence_qed: only iterate-exact with QED
+        return ["iterate-exact", "QED"], "any"  # singlet_qed / valence_qed: only iterate-exact with QED
     return None
 
 
 def expected_refusal_matching(cfg):
     k = cfg["order"][0]
     if cfg["pol"] and cfg["tl"]:
-        return ["olarized", "ime-like", "ime_like"]
+        return ["olarized", "ime-like", "ime_like"], "all"
     if cfg["pol"] and k >= 3:
-        return ["olarized"]  # doc/theory/Matching.rst: polarized matching up to NNLO
+        return ["olarized"], "all"  # doc/theory/Matching.rst: polarized matching up to NNLO
     return None  # time-like beyond NLO: documented exception (unknown, taken as zero)
 
 
@@ -440,11 +443,13 @@ def check_config(log, cfg, kind, quick):
             what += "  -- refused: %s %s" % refused[0]
         key = "%s:supported-but-refused" % fn
     else:
-        named = [d for _l, d in refused if any(k in d for k in expect)]
-        good = bool(named)
-        what = "%s %s is outside the documented availability: refused with an error naming the feature" % (fn, tag)
+        words, scope = expect
+        named = [l for l, d in refused if any(k in d for k in words)]
+        nlab = len(set(labels))
+        good = bool(named) and (scope == "any" or (values == 0 and len(set(named)) == nlab))
+        what = "%s %s is outside the documented availability: %s with an error naming the feature" % (fn, tag, "every label refused" if scope == "all" else "refused")
         if not good:
-            what += "  -- " + ("refusals do not name it: %s" % refused[0][1] if refused else "not refused: %d label paths returned kernels" % values)
+            what += "  -- " + ("refusals do not name it: %s" % refused[0][1] if refused and not named else "%d label paths returned kernels, %d of %d labels refused" % (values, len(set(named)), nlab))
         key = "%s:%s-not-refused" % (fn, _feature(cfg, kind))
     v = prove_formula(z3.BoolVal(good), what)
     if good:
@@ -484,11 +489,11 @@ def case_direct(log):
     qk, ns, sg, qns, qs, qv = (e[k] for k in ("qk", "ns", "sg", "qns", "qs", "qv"))
     from eko.kernels import EvoMethods
 
-    def obligation(kind, detail, what, key):
+    def obligation(kind, detail, what, key, rp=None):
         v = prove_formula(z3.BoolVal(kind != "crash"), what)
         if kind == "crash":
             v.what += "  -- " + detail
-            _decide(log, v, key, None)
+            _decide(log, v, key, rp)
         else:
             _ok(log, v)
 
@@ -502,7 +507,7 @@ def case_direct(log):
                     a_s = SR.var("a_s")
                     assume(a_s, ">0")
                     kind, detail = _outcome(lambda: qk.build_ome(A, (k, 0), a_s, qk.MatchingMethods[bm]), (dim, dim))
-                    obligation(kind, detail, "build_ome dim %d matching order %d %s: %dx%d array without None" % (dim, k, bm, dim, dim), "build_ome:%s" % bm)
+                    obligation(kind, detail, "build_ome dim %d matching order %d %s: %dx%d array without None" % (dim, k, bm, dim, dim), "build_ome:%s" % bm, (MOD, "replay_direct", {"fn": "build_ome", "dim": dim, "order": [k, 0], "sel": bm}))
                 _r, pm = explore(run, max_paths=16)
                 log.path_stats(pm)
     # the dispatchers, every method, orders 1..4 (QED: (1..4, 1..2)); order 5 / QED order 3 must be refused
@@ -517,10 +522,10 @@ def case_direct(log):
                 kind, detail = _outcome(lambda: ns.dispatcher((o, 0), EvoMethods[m], g, a1, a0, SR(4)))
                 if o == 5 and kind == "value":
                     kind, detail = "crash", "order (5,0) accepted by the non-singlet dispatcher"
-                obligation(kind, detail, "non_singlet.dispatcher order (%d,0) %s" % (o, m), "non_singlet.dispatcher")
+                obligation(kind, detail, "non_singlet.dispatcher order (%d,0) %s" % (o, m), "non_singlet.dispatcher", (MOD, "replay_direct", {"fn": "non_singlet", "dim": 0, "order": [o, 0], "sel": m}))
                 G = FR.arr("G", (o, 2, 2))
                 kind, detail = _outcome(lambda: sg.dispatcher((o, 0), EvoMethods[m], G, a1, a0, SR(4), ITER, MAXORD), (2, 2))
-                obligation(kind, detail, "singlet.dispatcher order (%d,0) %s" % (o, m), "singlet.dispatcher")
+                obligation(kind, detail, "singlet.dispatcher order (%d,0) %s" % (o, m), "singlet.dispatcher", (MOD, "replay_direct", {"fn": "singlet", "dim": 2, "order": [o, 0], "sel": m}))
             _r, pm = explore(run, max_paths=16)
             log.path_stats(pm)
         for o in itertools.product((1, 2, 3, 4), (1, 2)):
@@ -530,10 +535,11 @@ def case_direct(log):
                 for disp, dim in ((qs.dispatcher, 4), (qv.dispatcher, 2)):
                     G = FR.arr("G", (o[0] + 1, o[1] + 1, dim, dim))
                     kind, detail = _outcome(lambda: disp(o, EvoMethods[m], G, as_list, a_half, SR(4), ITER, MAXORD), (dim, dim))
-                    obligation(kind, detail, "%s order %s %s" % (disp.__module__.split(".")[-1] + ".dispatcher", o, m), disp.__module__.split(".")[-1] + ".dispatcher")
+                    obligation(kind, detail, "%s order %s %s" % (disp.__module__.split(".")[-1] + ".dispatcher", o, m), disp.__module__.split(".")[-1] + ".dispatcher",
+                               (MOD, "replay_direct", {"fn": disp.__module__.split(".")[-1], "dim": dim, "order": list(o), "sel": m}))
                 g = FR.arr("g", (o[0] + 1, o[1] + 1))
                 kind, detail = _outcome(lambda: qns.dispatcher(o, EvoMethods[m], g, as_list, a_half[:, 1], True, SR(4), ITER, mu0, mu1))
-                obligation(kind, detail, "non_singlet_qed.dispatcher order %s %s" % (o, m), "non_singlet_qed.dispatcher")
+                obligation(kind, detail, "non_singlet_qed.dispatcher order %s %s" % (o, m), "non_singlet_qed.dispatcher", (MOD, "replay_direct", {"fn": "non_singlet_qed", "dim": 0, "order": list(o), "sel": m}))
             _r, pm = explore(run, max_paths=16)
             log.path_stats(pm)
     # early return: integrand exactly zero
@@ -706,7 +712,9 @@ def _replay_config(point, cfg, kind):
         if refused:
             return {"detail": "configuration %s lies inside the documented availability but label %s is refused: %s" % (cfg_tag(cfg), refused[0][0], refused[0][1])}
         return None
-    if not any(any(k in d for k in expect) for _l, d in refused):
+    words, scope = expect
+    named = [l for l, d in refused if any(k in d for k in words)]
+    if not named or (scope == "all" and len(named) < len(out)):
         extra = ""
         if kind == "evolution" and cfg["tl"] and cfg["order"][0] >= 4:
             import ekore.anomalous_dimensions.unpolarized.time_like as ut
@@ -715,6 +723,47 @@ def _replay_config(point, cfg, kind):
             extra = "; time-like gamma_ns at this order = %r (top coefficient silently %r)" % (list(g), g[-1])
         return {"detail": "configuration %s is documented as unavailable, yet %d labels return kernels and %d are refused%s%s"
                           % (cfg_tag(cfg), len(out) - len(refused), len(refused), (" (" + refused[0][1] + ")") if refused else "", extra)}
+    return None
+
+
+def replay_direct(point, fn, dim, order, sel):
+    """the real dispatcher / build_ome on concrete arrays"""
+    import importlib
+
+    import numpy as np
+    from eko.kernels import EvoMethods
+
+    rng = np.random.default_rng(7)
+    order = tuple(order)
+
+    def arr(*shape):
+        return rng.uniform(-1, 1, shape) + 1j * rng.uniform(-1, 1, shape)
+
+    as_list, a_half = np.array([0.030, 0.025, 0.021]), np.array([[0.027, 0.00062], [0.023, 0.00063]])
+    if fn == "build_ome":
+        qk = importlib.import_module("eko.evolution_operator.quad_ker")
+        call, shape = (lambda: qk.build_ome(arr(order[0], dim, dim), order, 0.02, qk.MatchingMethods[sel])), (dim, dim)
+    elif fn == "non_singlet":
+        ns = importlib.import_module("eko.kernels.non_singlet")
+        call, shape = (lambda: ns.dispatcher(order, EvoMethods[sel], arr(order[0]), 0.02, 0.03, 4)), ()
+    elif fn == "singlet":
+        sg = importlib.import_module("eko.kernels.singlet")
+        call, shape = (lambda: sg.dispatcher(order, EvoMethods[sel], arr(order[0], 2, 2), 0.02, 0.03, 4, ITER, MAXORD)), (2, 2)
+    elif fn in ("singlet_qed", "valence_qed"):
+        mod = importlib.import_module("eko.kernels." + fn)
+        call, shape = (lambda: mod.dispatcher(order, EvoMethods[sel], arr(order[0] + 1, order[1] + 1, dim, dim), as_list, a_half, 4, ITER, MAXORD)), (dim, dim)
+    else:
+        mod = importlib.import_module("eko.kernels.non_singlet_qed")
+        call, shape = (lambda: mod.dispatcher(order, EvoMethods[sel], arr(order[0] + 1, order[1] + 1), as_list, a_half[:, 1], True, 4, ITER, 10.0, 100.0)), ()
+    kind, detail = _classify_real(call)
+    if kind == "value":
+        out = call()
+        if np.shape(out) != shape:
+            kind, detail = "crash", "returned shape %r instead of %r" % (np.shape(out), shape)
+        elif fn == "non_singlet" and order[0] >= 5:
+            kind, detail = "crash", "order %r accepted" % (order,)
+    if kind == "crash":
+        return {"detail": "real %s%s order %s %s: %s" % (fn, "" if fn == "build_ome" else ".dispatcher", order, sel, detail)}
     return None
 
 
